@@ -125,6 +125,14 @@ pub trait Dec: Sized + fmt::Display + fmt::Debug {
     fn to_f(&self, ty: &str) -> Option<Option<u64>>;
     fn from_f(ty: &str, bits: u64) -> Option<Option<Self>>;
     fn consts() -> Option<String>;
+    // the same operations through the conversion traits (`FromStr`, `TryFrom<&str>`, `From`/`TryFrom` between decimals and
+    // primitives): separate impls in the crate, so separate entry points here. `via`: 1 = FromStr, 2 = TryFrom<&str>
+    fn parse_via(s: &str, via: u8) -> Result<Self, decstr::Error>;
+    fn to_int_t(self, ty: &str) -> Option<Option<i128>>;
+    fn to_u128_t(self) -> Option<u128>;
+    fn from_int_t(ty: &str, v: i128, vu: u128) -> Option<Option<Self>>;
+    fn to_f_t(self, ty: &str) -> Option<Option<u64>>;
+    fn from_f_t(ty: &str, bits: u64) -> Option<Option<Self>>;
 }
 
 macro_rules! impl_into_opt {
@@ -196,6 +204,59 @@ macro_rules! impl_dec_common {
             Some(match ty {
                 "f32" => IntoOpt::<Self>::into_opt($t::from_f32(f32::from_bits(bits as u32))),
                 "f64" => IntoOpt::<Self>::into_opt($t::from_f64(f64::from_bits(bits))),
+                _ => return None,
+            })
+        }
+        fn parse_via(s: &str, via: u8) -> Result<Self, decstr::Error> {
+            match via {
+                1 => s.parse::<$t>(),
+                2 => <$t as TryFrom<&str>>::try_from(s),
+                _ => $t::try_parse_str(s),
+            }
+        }
+        fn to_int_t(self, ty: &str) -> Option<Option<i128>> {
+            Some(match ty {
+                "i8" => <i8 as TryFrom<$t>>::try_from(self).ok().map(|v| v as i128),
+                "i16" => <i16 as TryFrom<$t>>::try_from(self).ok().map(|v| v as i128),
+                "i32" => <i32 as TryFrom<$t>>::try_from(self).ok().map(|v| v as i128),
+                "i64" => <i64 as TryFrom<$t>>::try_from(self).ok().map(|v| v as i128),
+                "i128" => <i128 as TryFrom<$t>>::try_from(self).ok(),
+                "u8" => <u8 as TryFrom<$t>>::try_from(self).ok().map(|v| v as i128),
+                "u16" => <u16 as TryFrom<$t>>::try_from(self).ok().map(|v| v as i128),
+                "u32" => <u32 as TryFrom<$t>>::try_from(self).ok().map(|v| v as i128),
+                "u64" => <u64 as TryFrom<$t>>::try_from(self).ok().map(|v| v as i128),
+                _ => return None,
+            })
+        }
+        fn to_u128_t(self) -> Option<u128> {
+            <u128 as TryFrom<$t>>::try_from(self).ok()
+        }
+        fn from_int_t(ty: &str, v: i128, vu: u128) -> Option<Option<Self>> {
+            Some(match ty {
+                "i8" => <$t as TryFrom<i8>>::try_from(v as i8).ok(),
+                "i16" => <$t as TryFrom<i16>>::try_from(v as i16).ok(),
+                "i32" => <$t as TryFrom<i32>>::try_from(v as i32).ok(),
+                "i64" => <$t as TryFrom<i64>>::try_from(v as i64).ok(),
+                "i128" => <$t as TryFrom<i128>>::try_from(v).ok(),
+                "u8" => <$t as TryFrom<u8>>::try_from(vu as u8).ok(),
+                "u16" => <$t as TryFrom<u16>>::try_from(vu as u16).ok(),
+                "u32" => <$t as TryFrom<u32>>::try_from(vu as u32).ok(),
+                "u64" => <$t as TryFrom<u64>>::try_from(vu as u64).ok(),
+                "u128" => <$t as TryFrom<u128>>::try_from(vu).ok(),
+                _ => return None,
+            })
+        }
+        fn to_f_t(self, ty: &str) -> Option<Option<u64>> {
+            Some(match ty {
+                "f32" => <f32 as TryFrom<$t>>::try_from(self).ok().map(|f| f.to_bits() as u64),
+                "f64" => <f64 as TryFrom<$t>>::try_from(self).ok().map(|f| f.to_bits()),
+                _ => return None,
+            })
+        }
+        fn from_f_t(ty: &str, bits: u64) -> Option<Option<Self>> {
+            Some(match ty {
+                "f32" => <$t as TryFrom<f32>>::try_from(f32::from_bits(bits as u32)).ok(),
+                "f64" => <$t as TryFrom<f64>>::try_from(f64::from_bits(bits)).ok(),
                 _ => return None,
             })
         }
@@ -319,6 +380,36 @@ fn to_int_tok<D: Dec>(d: &D, ity: &str) -> String {
     })
 }
 
+fn to_int_tok_t<D: Dec>(d: D, ity: &str) -> String {
+    guard_tok(|| {
+        if ity == "u128" {
+            match d.to_u128_t() {
+                Some(v) => format!("some:{}", v),
+                None => "none".into(),
+            }
+        } else {
+            match d.to_int_t(ity) {
+                Some(v) => oans_int(v),
+                None => "bad".into(),
+            }
+        }
+    })
+}
+
+fn to_f_tok_t<D: Dec>(d: D, fty: &str) -> String {
+    guard_tok(|| match d.to_f_t(fty) {
+        Some(Some(bits)) => {
+            if fty == "f32" {
+                format!("some:{:08x}", bits)
+            } else {
+                format!("some:{:016x}", bits)
+            }
+        }
+        Some(None) => "none".into(),
+        None => "bad".into(),
+    })
+}
+
 fn to_f_tok<D: Dec>(d: &D, fty: &str) -> String {
     guard_tok(|| match d.to_f(fty) {
         Some(Some(bits)) => {
@@ -367,7 +458,77 @@ pub fn parse_frags(s: &str) -> Option<Vec<(String, bool)>> {
         .collect()
 }
 
-fn run_typed<D: Dec>(req: &[&str]) -> String {
+fn run_typed<D: Dec>(req0: &[&str]) -> String {
+    // `op@fromstr`, `op@tryfrom`, `op@t`: the same operation through the conversion traits
+    let (op, via) = match req0[0].split_once('@') {
+        Some((op, "fromstr")) => (op, 1u8),
+        Some((op, _)) => (op, 2u8),
+        None => (req0[0], 0u8),
+    };
+    let mut reqv: Vec<&str> = req0.to_vec();
+    reqv[0] = op;
+    let req: &[&str] = &reqv;
+    if via != 0 {
+        return match req {
+            ["parse_str", _, txt] => {
+                let Some(b) = unhex(txt) else { return "bad".into() };
+                let Ok(s) = String::from_utf8(b) else { return "skip".into() };
+                guard(|| match D::parse_via(&s, via) {
+                    Ok(d) => format!("ok:{} {}", hex(&d.le()), hex(d.to_string().as_bytes())),
+                    Err(e) => {
+                        let (k, _, _) = err_facts(&e.to_string());
+                        let big = if k == "overflow" && D::NAME != "big" { big_len(&s) } else { 0 };
+                        pans_err(&e, big)
+                    }
+                })
+            }
+            ["to_int", _, b, ity] => {
+                let Some(b) = unhex(b) else { return "bad".into() };
+                guard(|| {
+                    let Some(d) = D::from_le(&b) else { return "skip".into() };
+                    to_int_tok_t(d, ity)
+                })
+            }
+            ["from_int", _, ity, v] => {
+                let (vi, vu): (i128, u128) = if ity.starts_with('u') {
+                    let Ok(u) = v.parse::<u128>() else { return "bad".into() };
+                    (u as i128, u)
+                } else {
+                    let Ok(i) = v.parse::<i128>() else { return "bad".into() };
+                    (i, i as u128)
+                };
+                guard(|| match D::from_int_t(ity, vi, vu) {
+                    Some(Some(d)) => {
+                        let txt = hex(d.to_string().as_bytes());
+                        let le = hex(&d.le());
+                        format!("ok:{} {} {}", le, txt, to_int_tok_t(d, ity))
+                    }
+                    Some(None) => "none".into(),
+                    None => "bad".into(),
+                })
+            }
+            ["to_float", _, b, fty] => {
+                let Some(b) = unhex(b) else { return "bad".into() };
+                guard(|| {
+                    let Some(d) = D::from_le(&b) else { return "skip".into() };
+                    to_f_tok_t(d, fty)
+                })
+            }
+            ["from_float", _, fty, bits, _ryu] => {
+                let Ok(bits) = u64::from_str_radix(bits, 16) else { return "bad".into() };
+                guard(|| match D::from_f_t(fty, bits) {
+                    Some(Some(d)) => {
+                        let txt = hex(d.to_string().as_bytes());
+                        let le = hex(&d.le());
+                        format!("ok:{} {} {}", le, txt, to_f_tok_t(d, fty))
+                    }
+                    Some(None) => "none".into(),
+                    None => "bad".into(),
+                })
+            }
+            _ => "bad".into(),
+        };
+    }
     match req {
         ["parse_str", _, txt] => {
             let Some(b) = unhex(txt) else { return "bad".into() };
